@@ -693,7 +693,8 @@ func (s *Spec) paramsAsMap(parameters []spec.Parameter, res map[string]spec.Para
 		}
 
 		objAsParam, ok := obj.(spec.Parameter)
-		if !ok {
+		if !ok || objAsParam.Ref.String() != "" {
+			// not a parameter, or a shared parameter which is again a $ref (not supported): never return a placeholder
 			if callmeOnError(param, ErrInvalidParameterRef(pr.Ref.String())) {
 				continue
 			}
